@@ -165,6 +165,7 @@ class World:
         self.arm = False  # next delivery suspends
         self.gate = None  # future of the suspended delivery
         self.gate_event = None
+        self.gate_task = None
         self.entries = 0
         self.ready = 0
         self.teardown = 0
@@ -243,11 +244,14 @@ class World:
             self.arm = False
             self.gate = self.loop.create_future()
             self.gate_event = event.name
+            import asyncio as _a
+            self.gate_task = _a.current_task().get_name()
             try:
                 await self.gate
             finally:  # also when the suspended task is cancelled (spa.disconnect cancels the "SPA" tasks)
                 self.gate = None
                 self.gate_event = None
+                self.gate_task = None
 
     def settle(self):
         self.loop.run_for(0.35)
@@ -271,6 +275,9 @@ class World:
             ev.append("suspend-next")
         if self.gate is not None:
             ev.append("release")
+            # the phase raises: the client's handler fails while the pump is inside a started locate/connect phase
+            if self.gate_task == "SPAMAN:Sequence Pump" and (self.brackets["LOCATING"] > 0 or self.brackets["CONNECTION"] > 0):
+                ev.append("release:raise")
         return ev
 
     def fire(self, ev):
@@ -312,6 +319,9 @@ class World:
             elif ev == "release":
                 if not self.gate.done():
                     self.gate.set_result(True)
+            elif ev == "release:raise":
+                if not self.gate.done():
+                    self.gate.set_exception(RuntimeError("the client's event handler failed (injected)"))
         self.settle()
         if self.man.spa_state not in ERRS:
             self.reset_due = False
